@@ -83,7 +83,7 @@ impl OtlpReceiver {
 
     /// Ingest metrics
     pub async fn ingest(&self, batch: RecordBatch) -> Result<()> {
-        self.ingester.write(batch).await
+        self.ingester.write_detached(batch).await
     }
 }
 
